@@ -19,7 +19,7 @@ from itertools import product
 from harness.core import VERIF, Ctx, cbool, clist, copt, cz, guarded
 
 ANCHORS = ["solvor/dijkstra.py", "solvor/a_star.py", "solvor/utils/helpers.py"]
-IMPORTS = "From SV Require Import C11.BestFirst C11.BestGrid C11.BestGridF C11.BestSpec C11.BestCases.\nFrom Coq Require Import Floats."
+IMPORTS = "From SV Require Import C11.BestFirst C11.BestGrid C11.BestGridF C11.BestSpec C11.BestHyps C11.BestCases.\nFrom Coq Require Import Floats."
 INF = float("inf")
 BIG_H = 1000
 
@@ -303,11 +303,15 @@ def judge_graph(case, out):
 
 
 def graph_to_coq(case, out):
+    return f"({graph_case_coq(case)}, {obs_to_coq(out, lambda t: f'{t}%nat', _cz_obj)})"
+
+
+def graph_case_coq(case):
     adj = clist(case["adj"], lambda es: clist(es, lambda e: f"({e[0]}%nat, {cz(e[1])})"))
     c = (f"GCase {cbool(case['algo'] == 'astar')} {adj} {case['start']}%nat {clist(case['goals'], lambda t: f'{t}%nat')} "
          f"{clist(case['h'], cz)} {cz(case['weight'])} {cz(1_000_000 if case['max_iter'] is None else case['max_iter'])} "
          f"{copt(case['max_cost'], cz)}")
-    return f"({c}, {obs_to_coq(out, lambda t: f'{t}%nat', _cz_obj)})"
+    return c
 
 
 def _cz_obj(x):
@@ -510,13 +514,17 @@ def ccell(p):
 
 
 def grid_to_coq(case, out):
+    return f"({grid_case_coq(case)}, {obs_to_coq(out, ccell, cfloat)})"
+
+
+def grid_case_coq(case):
     b = case["blocked"]
     bl = [b] if isinstance(b, int) else list(b)
     cm = sorted((int(k), v) for k, v in (case["costs"] or {}).items())
     c = (f"GrCase {clist(case['grid'], lambda row: clist(row, cz))} {ccell(case['start'])} {ccell(case['goal'])} "
          f"{cz(case['directions'])} {HN[case['heuristic']]} {clist(bl, cz)} {clist(cm, lambda kv: f'({cz(kv[0])}, {cz(kv[1])})')} "
          f"{cz(case['weight'])} {cz(1_000_000 if case['max_iter'] is None else case['max_iter'])}")
-    return f"({c}, {obs_to_coq(out, ccell, cfloat)})"
+    return c
 
 
 # ------------------------------------------------------------------------------------------------ corpus
@@ -723,6 +731,26 @@ def run_part(ctx: Ctx):
     disagree += [("grid exact model SV.C11.BestGrid (Z[sqrt2])", zr[i][1]) for i in f4]
     f5 = ctx.coq_check("best_grid_spec", IMPORTS, "grcase * obs cell float", "grcase_spec_ok", rcoq)
     ctx.traces_validated += len(gcoq) + len(rcoq)
+    # the boolean hypotheses of the optimality theorems (nonneg_adj, consistent_adj, costs_ge1, heur_ok), evaluated in
+    # Coq on the real inputs, coincide with the harness's own notion of "the optimum is demanded here"
+    hg = []
+    for case, out, _bad in gmeta:
+        demanded = True if case["algo"] == "dijkstra" else (case["weight"] == 1 and h_consistent(case))
+        hg.append("(" + graph_case_coq(case) + ", " + cbool(demanded) + ")")
+        ctx.count("bf_theorem_hypotheses_hold", demanded)
+    f6 = ctx.coq_check("best_graph_hyp", IMPORTS, "gcase * bool", "gcase_hyp_ok", hg)
+    hr = []
+    for c, (case, out, _bad) in zr:
+        demanded = case["weight"] == 1 and grid_heuristic_ok(case)
+        hr.append("(" + grid_case_coq(case) + ", " + cbool(demanded) + ")")
+        ctx.count("grid_theorem_hypotheses_hold", demanded)
+    f7 = ctx.coq_check("best_grid_hyp", IMPORTS, "grcase * bool", "grcase_hyp_ok", hr)
+    for i in f6[:1]:
+        ctx.violation("Coq hypotheses nonneg_adj/consistent_adj disagree with the harness's consistency check",
+                      {"part": "bestfirst", "case": case_to_json(gmeta[i][0]), "lemma": "Cases/C11/best_graph_hyp_*.v corr"}, no_input=True)
+    for i in f7[:1]:
+        ctx.violation("Coq hypotheses costs_ge1/heur_ok disagree with the harness's admissibility check",
+                      {"part": "bestfirst", "case": zr[i][1][0], "lemma": "Cases/C11/best_grid_hyp_*.v corr"}, no_input=True)
     # how often does the exact model also return the very same path (ties can be broken differently by float rounding)
     if zr:
         txt = ctx.coq_eval("best_grid_zr_paths", IMPORTS,
@@ -751,6 +779,8 @@ def run_part(ctx: Ctx):
         "C11 best-first: euclidean heuristic is (..)**0.5 in the code and sqrt in the float twin (equal for all integers < 200, checked at start); it is outside Z[sqrt 2]",
         "C11 best-first: oracle demands optimality for dijkstra always, for astar only with weight 1 and a consistent heuristic (checked on the instance), "
         "with max_cost only when the true distance is <= max_cost; MAX_ITER accepted only if max_iter <= number of reachable nodes",
+        "C11 best-first: theorems (Props/C11_bestfirst.v) hold for every fuel whenever the model returns Some result; that the graph models always return "
+        "a result with their built-in fuel is proved (C11_best_total); for the grid model it is checked on every generated case by the correspondence lemmas",
         "C11 best-first: heapq modelled as sorted list (keys unique by counter), dicts as shadowing association lists, grids rectangular",
     ]
     assert all(float(x) ** 0.5 == math.sqrt(x) for x in range(200))
@@ -772,9 +802,9 @@ def run_part(ctx: Ctx):
         if not found:
             for what, (case, out, _bad) in disagree[:2]:
                 if case["kind"] == "graph":
-                    term = "run_gcase (fst " + graph_to_coq(case, out) + ")"
+                    term = "run_gcase (" + graph_case_coq(case) + ")"
                 else:
-                    term = ("run_grcase_f (fst " if "float" in what else "run_grcase_zr (fst ") + grid_to_coq(case, out) + ")"
+                    term = ("run_grcase_f (" if "float" in what else "run_grcase_zr (") + grid_case_coq(case) + ")"
                 model = ctx.coq_eval("best_show", IMPORTS, term)
                 ctx.violation(f"correspondence lemma: {what} and the implementation differ on (status, path, objective)",
                               {"part": "bestfirst", "case": case_to_json(case), "impl": _jsonable(out), "model": model[-600:],
